@@ -62,7 +62,15 @@ type viol struct {
 	Msg    string
 }
 
-func (v viol) sig() string { return v.Oracle + ": " + normalise(v.Msg) }
+// sig is the violation class: oracle plus the normalised message up to the
+// detail separator " | " (details after it do not distinguish classes).
+func (v viol) sig() string {
+	m := v.Msg
+	if i := strings.Index(m, " | "); i >= 0 {
+		m = m[:i]
+	}
+	return v.Oracle + ": " + normalise(m)
+}
 
 var reNum = regexp.MustCompile(`[0-9]+`)
 var reHex = regexp.MustCompile(`\b[0-9a-f]{8,}\b`)
